@@ -22,7 +22,17 @@ CFG = {
 }
 
 
-def write_cfg(path, c, emit, deviations="{}"):
+SIM = {
+    # random deep behaviours (G-sim): TLC -simulate prints every enabled out-edge of every state it visits, each with
+    # the real (unmerged) history that led there - this reaches what the BFS transition cover cannot: states whose
+    # shortest history is short but which are also reached by long histories (reset in mid-probation, re-enable, ...)
+    "quick": dict(num=120, depth=14, consts=dict(SeqAlpha="{0, 1, 2}", MaxPks="{1, 2, 3, 4, 5, 6}", MaxLen=13)),
+    "thorough": dict(num=3000, depth=22, consts=dict(SeqAlpha="{0, 1, 2, 3, 65535}", MaxPks="{0, 1, 2, 3, 4, 5, 6, 7, 8}",
+                                                      MaxLen=21)),
+}
+
+
+def write_cfg(path, c, emit, deviations="{}", sim=False):
     with open(path, "w") as f:
         f.write(f"""SPECIFICATION Spec
 CONSTANTS
@@ -32,9 +42,10 @@ CONSTANTS
   MaxLen = {c['MaxLen']}
   InitRemotes = {c.get('InitRemotes', '{"A", "Unset"}')}
   Deviations = {deviations}
-VIEW view
+  InitLatch = {'{TRUE}' if sim else '{FALSE}'}
+{'' if sim else 'VIEW view'}
 INVARIANTS TypeOK Bounded BoundedImmediate
-PROPERTIES Legit CommitRule Sticky RtcpOnly NonRtcpKeepsRtcp PairPreserves
+{'' if sim else 'PROPERTIES Legit CommitRule Sticky RtcpOnly NonRtcpKeepsRtcp PairPreserves'}
 ACTION_CONSTRAINT {'EmitEdge' if emit else 'NoEmit'}
 CHECK_DEADLOCK FALSE
 """)
@@ -94,6 +105,29 @@ def run(tier):
             os.remove(cfg)
         except OSError:
             pass
+    # G-sim
+    sim = SIM[tier]
+    cfg = os.path.join(vlib.SPEC, f"MC_Latch_sim_{tier}.gen.cfg")
+    write_cfg(cfg, sim["consts"], emit=True, sim=True)
+    edges = os.path.join(ck.dir, f"edges_{tier}_sim.ndjson")
+    res = vlib.tlc("MC_Latch", os.path.basename(cfg), tags=("EDGE",), sinks={"EDGE": edges}, simulate=sim["num"],
+                   depth=sim["depth"], timeout=3000 if tier == "thorough" else 600)
+    if res["errors"] or res.get("timeout"):
+        vlib.tlc_ok(res, "simulation")
+    res["finished"] = False
+    res["distinct"] = max(res["distinct"], 1)
+    ck.add_tlc(res, f"simulate num={sim['num']} depth={sim['depth']}")
+    summ = replay_edges(ck, edges, "sim")
+    total_edges += summ["edges"]
+    with open(edges) as f:
+        for i, line in enumerate(f):
+            if '"op":"reset"' in line or '"op":"retarget"' in line:
+                nontrivial.add(hash(line))
+            if i % 20011 == 7:
+                e = json.loads(line)
+                ck.cov["samples"].append({"cfg": e["cfg"], "pre": e["pre"], "act": e["act"], "kind": e["kind"],
+                                          "source": "simulation"})
+    os.remove(cfg)
     ck.cov["traces_validated_against_impl"] = total_edges
     ck.cov["evaluations"] = total_edges
     ck.cov["distinct_nontrivial"] = len(nontrivial)
